@@ -5,6 +5,7 @@ from harness import dist as D
 
 ID = "C01"
 PROPS = "props/C01.v"
+NEEDS = ["dist_close_to_zero_abs_tol", "dist_manager_exponent"]
 
 
 class C01Exact(D.DistStream):
@@ -21,7 +22,7 @@ def streams():
 
 ASSUMPTIONS = [
     "C01_sign_partial / C01_remainder_partial carry the hypothesis side_ok (no negative excess after an approximate math.isclose cover; request - assigned >= 0 before the greedy top-up). It is not yet derived from `admitted` inside Coq; every generated in-domain case file requires it to hold on the model (check fails otherwise) and the oracle judges sign/remainder on the implementation directly.",
-    "Requests with |p| <= 1e-9 W are treated as zero by the code (is_close_to_zero) and are outside the theorems (czero p = false).",
+    "Requests with |p| <= 1e-9 W are treated as zero by the code (is_close_to_zero) and are outside the theorems (czero p = false); a total capacity <= 1e-9 makes the code raise ValueError (model: None) and is outside the oracle's domain.",
     "pow(available_soc, exponent) enters the model as an arbitrary function argument; component ids are assumed pairwise distinct (dicts keyed by id / frozenset of ids are positional lists in the model).",
     "The admission condition is defined inside this area as the pool's advertised exclusion bounds (per group max(battery excl, sum inverter excl), summed), the formula of PowerBoundsCalculator; BatteryManager._get_bounds/_check_request itself belongs to C17.",
 ]
